@@ -56,36 +56,36 @@ Theorem c15_float_value_roundtrip : forall (pd : nat) (mx : N) (ex : Z),
 Proof. exact RoundTripFloat.float_value_roundtrip. Qed.
 Print Assumptions c15_float_value_roundtrip.
 
-(* Float through show / look (partial: the packing of (sign, m, e) into 64 bits by encode_double and
-   its inverse decode_double are validated by the correspondence, not proved inverse here):
-   the text show writes for a finite double is read back by look, consuming exactly that text, into
-   a double within 10^-6 of the original *)
-Theorem c15_float_show_look_partial : forall b rest, finite b -> stops_float rest ->
+(* Float through show / look: the text show writes for a finite double b is read back by look,
+   consuming exactly that text, into a bit pattern b' that decodes to a finite double of the same
+   sign within 10^-6 of the original (float_close 6 b b') *)
+Theorem c15_float_show_look : forall b rest, finite b -> stops_float rest ->
   exists b', look_value rt_cfg TFloat (show_value rt_cfg (VFloat b) ++ rest)%list
              = Some (VFloat b', length (show_value rt_cfg (VFloat b)))
              /\ float_close 6 b b'.
 Proof. exact RoundTripInst.rt_float_show_look. Qed.
-Print Assumptions c15_float_show_look_partial.
+Print Assumptions c15_float_show_look.
 
 (* sequences of Ints, Floats and Strings written with %$, "%li" or a plain "%.pf", separated by literal
-   text, at any start position, String sink and source (partial only in the Float clause, as above) *)
-Theorem c15_seq_string_partial : forall its sits pre rest, wf_seq rt_cfg its sits rest ->
+   text, at any start position, String sink and source; value_close = Ints and Strings equal, Floats
+   within the printed precision *)
+Theorem c15_seq_roundtrip_string : forall its sits pre rest, wf_seq rt_cfg its sits rest ->
   exists vs',
     scan_str rt_cfg (fst (print_to_string rt_cfg pre (length pre) its) ++ rest)%list (length pre) sits nil
     = SOk vs' (snd (print_to_string rt_cfg pre (length pre) its))
     /\ List.Forall2 value_close (values_of its) vs'.
 Proof. exact RoundTripInst.rt_seq_string. Qed.
-Print Assumptions c15_seq_string_partial.
+Print Assumptions c15_seq_roundtrip_string.
 
 (* the same through a File *)
-Theorem c15_seq_file_partial : forall its sits old rest, wf_seq rt_cfg its sits rest -> lits_plain its ->
+Theorem c15_seq_roundtrip_file : forall its sits old rest, wf_seq rt_cfg its sits rest -> lits_plain its ->
   exists vs',
     scan_file rt_cfg (List.skipn (length old) (fst (print_to_file rt_cfg old (length old) its) ++ rest)%list)
       (length old) sits nil
     = SOk vs' (snd (print_to_file rt_cfg old (length old) its))
     /\ List.Forall2 value_close (values_of its) vs'.
 Proof. exact RoundTripInst.rt_seq_file. Qed.
-Print Assumptions c15_seq_file_partial.
+Print Assumptions c15_seq_roundtrip_file.
 
 (* D8 (repaired): through "%f" the scanner stores a float; 123456789.123456 comes back as 123456792.0 *)
 Theorem c15_float_look_single_refuted :
